@@ -18,7 +18,7 @@ import numpy as np
 from vf import gen
 
 SCENARIOS = ["rerun_after_parameter_change", "diagrams_then_read", "same_instance_in_another_setup", "readded_after_decimation",
-             "name_equals_another_class_name", "twin_algorithms", "requested_parameters_used"]
+             "name_equals_another_class_name", "twin_algorithms", "requested_parameters_used", "extracted_twice"]
 
 PERMISSIVE = dict(conj=True, xi_max=0.2, mpc_lim=0.3, mpd_lim=1.0, cov_max=1e9)
 
@@ -454,8 +454,35 @@ def requested_parameters_used(ctx, rng, cls, fields, tag):
            f"extractions A, B, A with different arguments: the third is not answered like a first extraction with arguments A")
 
 
+def extracted_twice(ctx, rng, cls, fields, tag):
+    """an extraction reads what the run stored: it leaves those tables as they are, the same request gives the same answer again, and
+    another request afterwards gives what it gives on a fresh run"""
+    multi = cls.split("+")[0].endswith("_MS")
+    D = make_data(rng, multi)
+    P1, _ = spec(cls)
+    s = new_setup(D)
+    a = make_alg(cls, P1, name="a")
+    s.add_algorithms(a)
+    s.run_all()
+    after_run = copy.deepcopy(a.result)
+    stored = {k for k, v in _dump(after_run).items() if v is not None}
+    m = mpe_args(cls, P1, D["fn"])
+    o1 = do_mpe(s, "a", m)
+    ctx.ev(tag)
+    changed = [k for k in differing(a.result, after_run, fields) if k in stored]
+    _check(ctx, changed, "extracted_twice", cls, f"the extraction ({o1}) changed what the run had stored")
+    first = copy.deepcopy(a.result)
+    o2 = do_mpe(s, "a", m)
+    ctx.check(o1 == o2, f"plumbing:extracted_twice:{cls}:extraction_outcome", lambda: f"{cls}: the same extraction twice on one run: first {o1}, then {o2}")
+    _check(ctx, differing(a.result, first, fields), "extracted_twice", cls, "the same extraction a second time on the same run gives another result")
+    m2 = mpe_args(cls, P1, D["fn"], alt=True)
+    do_mpe(s, "a", m2)
+    ref = fresh(cls, P1, D, m2)
+    _cmp(ctx, a, ref, fields, "extracted_twice", cls, "another request after two extractions differs from that request on a fresh run")
+
+
 FUNCS = {f.__name__: f for f in (rerun_after_parameter_change, diagrams_then_read, same_instance_in_another_setup, readded_after_decimation,
-                                 name_equals_another_class_name, twin_algorithms, requested_parameters_used)}
+                                 name_equals_another_class_name, twin_algorithms, requested_parameters_used, extracted_twice)}
 
 
 def cases(n, classes):
